@@ -58,3 +58,62 @@ def c11(prop, tier, t0):
         "strings longer than the stated bounds are not enumerated",
         "the spelling '-0' for octave 0 is treated as don't-care (accepting it as octave 0 or rejecting it are both fine)",
     ], t0)
+
+
+# ------------------------------------------------------------------ Engine A (BFS on the real Device)
+def enga_run(prop, tier, workers_per_job=4):
+    binary, bt = vlib.build("enga")
+    p = vlib.run([binary, "-prop", prop, "-tier", tier, "-list"])
+    names = [l.split(" ", 1) for l in p.stdout.strip().splitlines() if l.strip()]
+    d = tempfile.mkdtemp(prefix="vres_", dir=vlib.BUILD)
+    jobs = []
+    for idx, _name in names:
+        res = os.path.join(d, "r%s.json" % idx)
+        jobs.append(([binary, "-prop", prop, "-tier", tier, "-job", idx, "-workers", str(workers_per_job), "-out", res], res))
+    try:
+        rs = vlib.run_jobs(jobs, workers=max(1, vlib.NCPU // workers_per_job + 1))
+    finally:
+        import shutil
+        shutil.rmtree(d, ignore_errors=True)
+    m = vlib.merge(rs)
+    per = {}
+    for (idx, name), r in zip(names, rs):
+        c = r.get("counters") or {}
+        per[name] = {"states": c.get("states", 0), "transitions": c.get("transitions", 0), "distinct_step_outputs": c.get("distinct_step_outputs", 0)}
+    c = m["counters"]
+    cov = {
+        "states": int(c.get("states", 0)), "transitions": int(c.get("transitions", 0)),
+        "traces_validated_against_impl": int(c.get("traces_validated_against_impl", 0)),
+        "scenarios": int(c.get("scenarios", 0)), "max_depth": max([(r.get("counters") or {}).get("max_depth", 0) for r in rs] + [0]),
+        "distinct_step_outputs": int(c.get("distinct_step_outputs", 0)),
+        "per_scenario": per, "build_s": round(bt, 1),
+    }
+    return m, cov
+
+
+ENGA_ASSUME = [
+    "device behaviour is a deterministic function of the dumped Device fields and the next event (checked: every state's witness is replayed on a fresh device through the real ProcessEvents and must give identical output)",
+    "bounded domains: the driver does not offer an action that leaves the stated octave/semitone/channel set, nor a third action press while a complete up/down pair is held; inside the domain the search runs to a fixpoint (unbounded depth)",
+    "alphabet: the keys/axes of the listed scenarios; one sub-handler",
+]
+
+
+def enga_check(prop, tier, t0, what):
+    m, cov = enga_run(prop, tier)
+    cov["explanation"] = what
+    return vlib.finish(prop, tier, "model_checking", m, cov, ENGA_ASSUME, t0)
+
+
+for _pid, _what in {
+    "C01": "BFS to a fixpoint over the real Device x receiver monitor: at every state with nothing held the receiver's sounding set must be empty; every state is additionally disconnected (real ProcessEvents, close of the stream) and must end with nothing sounding",
+    "C02": "BFS to a fixpoint x pairing monitor: every NoteOff of a release carries the (channel,pitch) of that key's press; action steps emit nothing",
+    "C03": "BFS to a fixpoint x collision monitor: per-step message list equals the list prescribed by the mode for the monitor's own holder count",
+    "C04": "BFS to a fixpoint over all action press/release orders x arithmetic monitor (Device.State() and NoteOn pitch/channel/velocity against an unbounded-int reference)",
+    "C13": "BFS to a fixpoint x panic monitor: burst content + differential against a shadow device that never sees the panic key",
+    "C14": "BFS to a fixpoint x exit-sequence monitor: signal iff the press completes the sequence; that press is swallowed",
+    "C07": "BFS to a fixpoint over axis position sequences x CC receiver monitor",
+    "C08": "BFS to a fixpoint over axis position sequences x key-emulation reference automaton",
+}.items():
+    def _mk(what):
+        return lambda prop, tier, t0: enga_check(prop, tier, t0, what)
+    REGISTRY[_pid] = _mk(_what)
